@@ -278,6 +278,15 @@ def _reduce_kw(draw, a, tuples=True, keepdims=True):
     return kw
 
 
+def _with_dtype(draw, kw, a):
+    """Sometimes request a result dtype (one the input can be cast to under numpy's rules)."""
+    if draw(st.integers(0, 4)) == 0:
+        opts = {"i": ["float64", "int64", "complex128"], "f": ["float64", "complex128"]}.get(a.get("kind"), [])
+        if opts:
+            kw["dtype"] = {"$dtype": draw(st.sampled_from(opts))}
+    return kw
+
+
 @recipe("any", "logical", result="bool", method="any", reduce="logical_or")
 def _any(draw, og):
     a = og.array(draw, min_ndim=1)
@@ -356,19 +365,22 @@ RECIPES["argmin"] = Recipe("argmin", "ordering", _argmax, result="index", flags=
 @recipe("sum", "reduction", method="sum", reduce="add")
 def _sum(draw, og):
     a = og.array(draw, min_ndim=1)
-    return {"args": [P(a)], "kw": _reduce_kw(draw, a)}
+    return {"args": [P(a)], "kw": _with_dtype(draw, _reduce_kw(draw, a), a)}
 
 
 @recipe("prod", "reduction", method="prod", reduce="multiply", cost=3)
 def _prod(draw, og):
     a = og.array(draw, min_ndim=1)
-    return {"args": [P(a)], "kw": _reduce_kw(draw, a)}
+    return {"args": [P(a)], "kw": _with_dtype(draw, _reduce_kw(draw, a), a)}
 
 
 @recipe("mean", "reduction", method="mean")
 def _mean(draw, og):
     a = og.array(draw, min_ndim=1)
-    return {"args": [P(a)], "kw": _reduce_kw(draw, a)}
+    kw = _with_dtype(draw, _reduce_kw(draw, a), a)
+    if kw.get("dtype", {}).get("$dtype") == "int64":
+        kw.pop("dtype")  # numpy's integer mean truncates: not the arithmetic mean any more
+    return {"args": [P(a)], "kw": kw}
 
 
 @recipe("cumsum", "reduction", method="cumsum", accumulate="add")
@@ -442,7 +454,7 @@ def _diff(draw, og):
         if draw(st.integers(0, 3)) == 0:
             s = list(shp)
             s[ax] = draw(st.integers(1, 2))
-            kw[key] = P(og.related(draw, a, tuple(s), kind=a["kind"]))
+            kw[key] = P(og.related(draw, a, tuple(s), kind=a["kind"] if draw(st.integers(0, 2)) else None))
     return {"args": [P(a)], "kw": kw}
 
 
@@ -452,7 +464,8 @@ def _ediff1d(draw, og):
     kw = {}
     for key in ("to_begin", "to_end"):
         if draw(st.integers(0, 2)) == 0:
-            kw[key] = P(og.related(draw, a, (draw(st.integers(1, 2)),), kind=a["kind"]))
+            k = a["kind"] if a["kind"] != "f" or draw(st.booleans()) else "i"
+            kw[key] = P(og.related(draw, a, (draw(st.integers(1, 2)),), kind=k))
     return {"args": [P(a)], "kw": kw}
 
 
@@ -838,7 +851,7 @@ def spellings_of(rec, args, kw):
         out.append("operator")
     # ufunc.reduce/accumulate default to axis=0 while sum/cumsum default to axis=None by
     # definition, so these spellings are only comparable with an explicit integer axis
-    if rec.reduce and first_poly and set(kw) <= {"axis", "keepdims"} and isinstance(kw.get("axis"), int):
+    if rec.reduce and first_poly and set(kw) <= {"axis", "keepdims", "dtype"} and isinstance(kw.get("axis"), int):
         out.append("reduce")
     if rec.accumulate and first_poly and set(kw) <= {"axis"} and isinstance(kw.get("axis"), int):
         out.append("accumulate")
